@@ -181,10 +181,21 @@ package kv
 //@ modifies ghset(present, batch)
 //@ note the callbacks (sessions, secondary indexes) write index/shadow keys into the batch; their own contracts are in package server (C15)
 
-//@ func notifications.Modified
-//@ trusted
-//@ requires n != nil
-//@ modifies fields(notifications), fields(proto.NotificationBatch), mapof(n.batch.Notifications)
+// ---------------------------------------------------------------- notification batches (C17)
+// What a write adds to the notification batch of its request: internal keys never
+// appear; a put is CREATED exactly when its modification count is 0 and carries the
+// version id it was given; a delete and a range delete are recorded under their (first)
+// key; every other entry of the batch is left as it was.
+
+//@ define nbOk(n *notifications) bool = n != nil && n.batch.Notifications != nil
+
+//@ func notifications.Modified(n, key, versionId, modificationsCount)
+//@ property C17
+//@ requires nbOk(n)
+//@ ensures strHasPrefix(key, "__oxia/") ==> forall k string :: inmap(n.batch.Notifications, k) <==> old(inmap(n.batch.Notifications, k))
+//@ ensures !strHasPrefix(key, "__oxia/") ==> inmap(n.batch.Notifications, key) && n.batch.Notifications[key] != nil && n.batch.Notifications[key].Type == ite(modificationsCount > 0, 1, 0) && n.batch.Notifications[key].VersionId != nil && *n.batch.Notifications[key].VersionId == versionId
+//@ ensures forall k string :: k != key ==> (inmap(n.batch.Notifications, k) <==> old(inmap(n.batch.Notifications, k))) && n.batch.Notifications[k] == old(n.batch.Notifications[k])
+//@ modifies mapof(n.batch.Notifications)
 
 // applyPut: what is written for a put. The version id is a new one, greater than every
 // id handed out before (the tracker is incremented by exactly one per applied user put);
@@ -195,7 +206,7 @@ package kv
 //
 //@ func db.applyPut(d, batch, notifications, putReq, timestamp, updateOperationCallback, internal) (res, err)
 //@ property C12 C13 C15 C16
-//@ requires batch != nil && putReq != nil && updateOperationCallback != nil && d.sequenceWaiterTracker != nil && d.log != nil
+//@ requires batch != nil && putReq != nil && updateOperationCallback != nil && d.sequenceWaiterTracker != nil && d.log != nil && (notifications != nil ==> nbOk(notifications))
 //@ requires d.versionIdTracker.v >= -1 && d.versionIdTracker.v < 4611686018427387904
 //@ assert at call MarshalVT#0: se.SecondaryIndexes == putReq.SecondaryIndexes && se.Value == putReq.Value && se.SessionId == putReq.SessionId && se.ClientIdentity == putReq.ClientIdentity && se.PartitionKey == putReq.PartitionKey && se.ModificationTimestamp == timestamp
 //@ assert at call MarshalVT#0: !internal ==> se.VersionId == d.versionIdTracker.v && d.versionIdTracker.v == old(d.versionIdTracker.v) + 1
@@ -266,10 +277,13 @@ package kv
 //@ trusted
 //@ modifies fields(proto.StorageEntry)
 
-//@ func notifications.DeletedRange
-//@ trusted
-//@ requires n != nil
-//@ modifies fields(notifications), fields(proto.NotificationBatch), mapof(n.batch.Notifications)
+//@ func notifications.DeletedRange(n, keyStartInclusive, keyEndExclusive)
+//@ property C17
+//@ requires nbOk(n)
+//@ ensures strHasPrefix(keyStartInclusive, "__oxia/") ==> forall k string :: inmap(n.batch.Notifications, k) <==> old(inmap(n.batch.Notifications, k))
+//@ ensures !strHasPrefix(keyStartInclusive, "__oxia/") ==> inmap(n.batch.Notifications, keyStartInclusive) && n.batch.Notifications[keyStartInclusive] != nil && n.batch.Notifications[keyStartInclusive].Type == 3 && n.batch.Notifications[keyStartInclusive].KeyRangeLast != nil && *n.batch.Notifications[keyStartInclusive].KeyRangeLast == keyEndExclusive
+//@ ensures forall k string :: k != keyStartInclusive ==> (inmap(n.batch.Notifications, k) <==> old(inmap(n.batch.Notifications, k))) && n.batch.Notifications[k] == old(n.batch.Notifications[k])
+//@ modifies mapof(n.batch.Notifications)
 
 // applyDeleteRange: the delete callback (which removes secondary-index entries and
 // session shadows) runs once for every record in the range — the scan stops early only
@@ -278,17 +292,20 @@ package kv
 //@ func db.applyDeleteRange(d, batch, notifications, delReq, updateOperationCallback) (res, err)
 //@ property C15 C12 C13
 //@ ghost n int
-//@ requires batch != nil && delReq != nil && updateOperationCallback != nil && d.log != nil && n >= 0
+//@ requires batch != nil && delReq != nil && updateOperationCallback != nil && d.log != nil && n >= 0 && (notifications != nil ==> nbOk(notifications))
 //@ assume at call RangeScan#0: err == nil ==> ghost(remaining, it) == n because "n names the number of records in the range (ghost parameter)"
 //@ loop 0 invariant it != nil && ghost(remaining, it) >= 0 && ghost(deleteCallbacks, updateOperationCallback) + ghost(remaining, it) == old(ghost(deleteCallbacks, updateOperationCallback)) + n
 //@ loop 1 invariant ghost(deleteCallbacks, updateOperationCallback) == old(ghost(deleteCallbacks, updateOperationCallback)) + n
 //@ ensures err == nil ==> ghost(deleteCallbacks, updateOperationCallback) == old(ghost(deleteCallbacks, updateOperationCallback)) + n
 //@ modifies *
 
-//@ func notifications.Deleted
-//@ trusted
-//@ requires n != nil
-//@ modifies fields(notifications), fields(proto.NotificationBatch), mapof(n.batch.Notifications)
+//@ func notifications.Deleted(n, key)
+//@ property C17
+//@ requires nbOk(n)
+//@ ensures strHasPrefix(key, "__oxia/") ==> forall k string :: inmap(n.batch.Notifications, k) <==> old(inmap(n.batch.Notifications, k))
+//@ ensures !strHasPrefix(key, "__oxia/") ==> inmap(n.batch.Notifications, key) && n.batch.Notifications[key] != nil && n.batch.Notifications[key].Type == 2
+//@ ensures forall k string :: k != key ==> (inmap(n.batch.Notifications, k) <==> old(inmap(n.batch.Notifications, k))) && n.batch.Notifications[k] == old(n.batch.Notifications[k])
+//@ modifies mapof(n.batch.Notifications)
 
 //@ func UpdateOperationCallback.OnDelete(recv, batch, key) (err)
 //@ trusted
@@ -299,6 +316,36 @@ package kv
 //
 //@ func db.applyDelete(d, batch, notifications, delReq, updateOperationCallback) (res, err)
 //@ property C12 C13
-//@ requires batch != nil && delReq != nil && updateOperationCallback != nil && d.log != nil
+//@ requires batch != nil && delReq != nil && updateOperationCallback != nil && d.log != nil && (notifications != nil ==> nbOk(notifications))
 //@ ensures err == nil ==> res != nil
 //@ modifies *
+
+// ---------------------------------------------------------------- notification retention (C17)
+
+// The timestamp of the stored notification batch at an offset, as a ghost function of
+// the trimmer and the offset (the batches do not change during a search).
+//@ ghostfun nbTime(*notificationsTrimmer, int64) int
+
+//@ func notificationsTrimmer.readAt(t, offset) (ts, err)
+//@ trusted
+//@ modifies nothing
+//@ ensures err == nil ==> timeKey(ts) == nbTime(t, offset)
+//@ note trusted: reads and unmarshals the stored batch
+
+// The retention cut-off search: over timestamps that do not decrease with the offset,
+// the result lies in the searched interval, every later batch is younger than the
+// cut-off (it must be kept), and the result itself has expired unless it is the first
+// offset; the search terminates for every interval.
+//
+//@ func notificationsTrimmer.binarySearch(t, firstOffset, lastOffset, cutoffTime) (res, err)
+//@ property C17
+//@ requires 0 <= firstOffset && firstOffset <= lastOffset && lastOffset < 4611686018427387904
+//@ requires forall a int64, b int64 :: firstOffset <= a && a <= b && b <= lastOffset ==> nbTime(t, a) <= nbTime(t, b)
+//@ loop 0 invariant old(firstOffset) <= firstOffset && firstOffset <= lastOffset && lastOffset <= old(lastOffset)
+//@ loop 0 invariant forall o int64 :: lastOffset < o && o <= old(lastOffset) ==> timeKey(cutoffTime) < nbTime(t, o)
+//@ loop 0 invariant firstOffset > old(firstOffset) ==> !(timeKey(cutoffTime) < nbTime(t, firstOffset))
+//@ loop 0 decreases lastOffset - firstOffset
+//@ ensures err == nil ==> old(firstOffset) <= res && res <= old(lastOffset)
+//@ ensures err == nil ==> forall o int64 :: res < o && o <= old(lastOffset) ==> timeKey(cutoffTime) < nbTime(t, o)
+//@ ensures err == nil && res > old(firstOffset) ==> !(timeKey(cutoffTime) < nbTime(t, res))
+//@ modifies nothing
